@@ -301,6 +301,10 @@ def check(ctx: Ctx):
     c04.check_relabel(ctx)
     c05.fitting_uint_table(ctx, rule="R09.4")
     c05.check_dispatch(ctx)
+    try:
+        c05.check_semantic_dtype(ctx)
+    except (Undecided, AnchorMissing) as e:
+        ctx.undecided("R05.6", None, None, "R05.6:check_semantic_dtype", f"{type(e).__name__}: {e}")
 
 
 _F = "panoptica/_functionals.py"
